@@ -21,7 +21,7 @@ CASE_TIMEOUT = 60
 WALL = {"quick": 900, "thorough": 7200}
 REQUIRED = {"graphs_compared": 2000, "fasta": 300, "ig": 300, "txt": 300, "seq_list": 200, "gen_seq_specs": 300,
             "circular": 60, "single_residue": 30, "json_round_trips": 300, "connect_records": 200, "termini_renamed": 100,
-            "labels": 100, "letters_seen": 29}
+            "labels": 100, "letters_seen": 29, "no_trailing_newline": 200, "multi_edge_connect_records": 50}
 DNA = {"A": "DA", "C": "DC", "G": "DG", "T": "DT"}
 RNA = {"A": "A", "C": "C", "G": "G", "T": "U"}
 AA = {"G": "GLY", "A": "ALA", "V": "VAL", "C": "CYS", "P": "PRO", "L": "LEU", "I": "ILE", "M": "MET", "W": "TRP",
@@ -135,6 +135,9 @@ def run_case(cid, rng, workdir):
             edges = edges | {frozenset((1, n))}
             labels = {frozenset((1, n)): {"linktype": "circle"}}
             bump(res, "circular")
+    if rng.random() < 0.3:
+        text = text.rstrip("\n")          # no newline at the end of the file
+        bump(res, "no_trailing_newline")
     p.write_text(text)
     bump(res, fmt)
     if n == 1:
@@ -200,11 +203,19 @@ def run_genseq(cid, rng, workdir, res):
     connects = []
     for si in range(len(seqtags) - 1):
         if rng.random() < 0.85:
-            a = rng.randrange(first[si][1])
-            c = rng.randrange(first[si + 1][1])
-            connects.append("%d:%d:%d-%d" % (si, si + 1, a, c))
-            edges.add(frozenset((first[si][0] + a + 1, first[si + 1][0] + c + 1)))
+            # one connect record may list several edges
+            pairs = []
+            for _ in range(rng.choice([1, 1, 2, 3])):
+                a = rng.randrange(first[si][1])
+                c = rng.randrange(first[si + 1][1])
+                if (a, c) not in pairs:
+                    pairs.append((a, c))
+            connects.append("%d:%d:%s" % (si, si + 1, ",".join("%d-%d" % x for x in pairs)))
+            for a, c in pairs:
+                edges.add(frozenset((first[si][0] + a + 1, first[si + 1][0] + c + 1)))
             bump(res, "connect_records")
+            if len(pairs) > 1:
+                bump(res, "multi_edge_connect_records")
     if len(seqtags) >= 3 and rng.random() < 0.3:
         a = rng.randrange(first[0][1])
         c = rng.randrange(first[-1][1])
